@@ -18,6 +18,7 @@ pub fn dispatch(cmd: &str, args: &Args) -> Option<i32> {
     Some(match cmd {
         "tv-events" => events(args),
         "tv-replay" => replay(args),
+        "tv-suite" => suite(args),
         _ => return None,
     })
 }
@@ -32,6 +33,7 @@ pub const NAMES: [&str; 37] = [
 /// an active character c as "~c".
 const FIRST_ACTIVE: usize = 36;
 const FIRST_USER: usize = 28;
+const PRELUDE: &str = "\\catcode`\\~=13 \\catcode`\\!=13 \\endlinechar=-1 ";
 
 fn id(name: &str) -> i64 {
     NAMES.iter().position(|n| *n == name).map(|i| i as i64 + 1).expect("name")
@@ -796,8 +798,13 @@ fn out_codes(toks: &[vmh::Tok]) -> Vec<i64> {
 }
 
 pub fn run_event(toks: &[T], src: &str) -> Value {
+    run_event_named(&tjson_seq(toks), src, &[])
+}
+
+/// `extra`: names of user control sequences beyond NAMES, for the report of unexpanded commands.
+fn run_event_named(prog: &[Value], src: &str, extra: &[(String, i64)]) -> Value {
     let mut vm = vmh::new_vm(&[], &[]);
-    let _ = vmh::run_src::<vmh::HStrict>(&mut vm, "prelude.tex", "\\catcode`\\~=13 \\catcode`\\!=13 \\endlinechar=-1 ", 10_000);
+    let _ = vmh::run_src::<vmh::HStrict>(&mut vm, "prelude.tex", PRELUDE, 10_000);
     let r = vmh::run_src::<vmh::HStrict>(&mut vm, "prog.tex", src, 200_000);
     let errat = vmh::first_err_at();
     let (fatal, budget, panic) = match &r.outcome {
@@ -806,7 +813,16 @@ pub fn run_event(toks: &[T], src: &str) -> Value {
         vmh::Outcome::Budget => (0, 1, None),
         vmh::Outcome::Panic { site, msg } => (0, 0, Some(format!("{site}: {msg}"))),
     };
-    let mut ev = json!({"prog": tjson_seq(toks), "src": src, "out": out_codes(&r.toks),
+    let out: Vec<i64> = r
+        .toks
+        .iter()
+        .zip(out_codes(&r.toks))
+        .map(|(t, c)| match t {
+            vmh::Tok::Unexp(n) if c == -999 => extra.iter().find(|(x, _)| x == n).map(|(_, i)| -*i).unwrap_or(-999),
+            _ => c,
+        })
+        .collect();
+    let mut ev = json!({"prog": prog, "src": src, "out": out,
                         "errat": errat, "fatal": fatal, "budget": budget, "finals": []});
     if let Some(p) = panic {
         ev["panic"] = json!(p);
@@ -838,6 +854,108 @@ fn events(args: &Args) -> i32 {
     }
     out.flush();
     eprintln!("tv-events: {made} programs ({unrenderable} unrenderable token lists dropped)");
+    0
+}
+
+/// The repository's own test inputs: every one-line TeX snippet of the test modules (extracted by the driver)
+/// that stays inside the model's vocabulary is lexed with the real lexer (C03 decides that one), mapped to the
+/// model's tokens - control sequences that are neither modelled primitives nor built-ins of the VM become the
+/// user names, in order of appearance - and run like a generated program.
+fn suite(args: &Args) -> i32 {
+    use texlang::token::lexer::{self, Lexer};
+    use texlang::token::{trace, CommandRef, CsNameInterner, Value as TV};
+    quiet_panics();
+    struct Cfg<'a>(&'a vmh::VS);
+    impl lexer::Config for Cfg<'_> {
+        fn cat_code(&self, c: char) -> texlang::types::CatCode {
+            <vmh::VS as texlang::traits::TexlangState>::cat_code(self.0, c)
+        }
+        fn end_line_char(&self) -> Option<char> {
+            None
+        }
+    }
+    let snippets: Vec<String> = serde_json::from_str(&std::fs::read_to_string(args.req("in")).expect("read")).expect("json");
+    let builtins: Vec<String> = vmh::built_ins().keys().map(|k| k.to_string()).collect();
+    let mut out = Out::new(args.str("out"));
+    let (mut run, mut skipped) = (0u64, 0u64);
+    'snippet: for src in &snippets {
+        let mut vm = vmh::new_vm(&[], &[]);
+        let _ = vmh::run_src::<vmh::HStrict>(&mut vm, "prelude.tex", PRELUDE, 10_000);
+        let mut tracer: trace::Tracer = Default::default();
+        let mut interner: CsNameInterner = Default::default();
+        let range = tracer.register_source_code(None, trace::Origin::File("s.tex".into()), src);
+        let mut lx = Lexer::new(src.to_string(), range);
+        let cfg = Cfg(&vm.state);
+        let mut prog: Vec<Value> = vec![];
+        let mut extra: Vec<(String, i64)> = vec![];
+        let lexed = crate::util::catch(|| {
+            let mut toks = vec![];
+            loop {
+                match lx.next(&cfg, &mut interner, false) {
+                    lexer::Result::Token(t) => toks.push(t),
+                    lexer::Result::InvalidCharacter(..) => return None,
+                    lexer::Result::EndOfLine => continue,
+                    lexer::Result::EndOfInput => break,
+                }
+                if toks.len() > 400 {
+                    return None;
+                }
+            }
+            Some(toks)
+        });
+        let Ok(Some(toks)) = lexed else {
+            skipped += 1;
+            continue;
+        };
+        for t in toks {
+            let v = match t.value() {
+                TV::CommandRef(CommandRef::ControlSequence(n)) => {
+                    let name = interner.resolve(n).unwrap_or("").to_string();
+                    if let Some(i) = NAMES[..FIRST_USER - 1].iter().position(|x| *x == name) {
+                        json!({"k":"cs","v":i as i64 + 1})
+                    } else if builtins.contains(&name) {
+                        skipped += 1;
+                        continue 'snippet;
+                    } else {
+                        let i = match extra.iter().find(|(x, _)| *x == name) {
+                            Some((_, i)) => *i,
+                            None => {
+                                if extra.len() >= 8 {
+                                    skipped += 1;
+                                    continue 'snippet;
+                                }
+                                let i = (FIRST_USER + extra.len()) as i64;
+                                extra.push((name, i));
+                                i
+                            }
+                        };
+                        json!({"k":"cs","v":i})
+                    }
+                }
+                TV::CommandRef(CommandRef::ActiveCharacter(_)) => {
+                    skipped += 1;
+                    continue 'snippet;
+                }
+                TV::BeginGroup(_) => json!({"k":"lb","v":0}),
+                TV::EndGroup(_) => json!({"k":"rb","v":0}),
+                TV::Parameter(_) => json!({"k":"ha","v":35}),
+                TV::Space(_) => json!({"k":"sp","v":32}),
+                other => match t.char() {
+                    Some(c) if (c as u32) < 128 => json!({"k":"ch","v":c as i64}),
+                    _ => {
+                        let _ = other;
+                        skipped += 1;
+                        continue 'snippet;
+                    }
+                },
+            };
+            prog.push(v);
+        }
+        out.line(&run_event_named(&prog, src, &extra));
+        run += 1;
+    }
+    out.flush();
+    eprintln!("tv-suite: {run} snippets run, {skipped} outside the vocabulary");
     0
 }
 
